@@ -1,6 +1,7 @@
 """Two-player extended nonlocal game."""
 
 from collections import defaultdict
+from itertools import product
 
 import cvxpy
 import numpy as np
@@ -103,21 +104,22 @@ class ExtendedNonlocalGame:
         dim_x, dim_y, alice_out, bob_out, alice_in, bob_in = self.pred_mat.shape
 
         max_unent_val = float("-inf")
-        for a_out in range(alice_out):
-            for b_out in range(bob_out):
-                p_win = np.zeros([dim_x, dim_y], dtype=complex)
-                for x_in in range(alice_in):
-                    for y_in in range(bob_in):
-                        p_win += self.prob_mat[x_in, y_in] * self.pred_mat[:, :, a_out, b_out, x_in, y_in]
-
-                rho = cvxpy.Variable((dim_x, dim_y), hermitian=True)
-
-                objective = cvxpy.Maximize(cvxpy.real(cvxpy.trace(p_win.conj().T @ rho)))
-
-                constraints = [cvxpy.trace(rho) == 1, rho >> 0]
-                problem = cvxpy.Problem(objective, constraints)
-                unent_val = problem.solve()
-                max_unent_val = max(max_unent_val, unent_val)
+        # Maximize over all deterministic answer functions f : x -> a and g : y -> b.
+        for f_ans in product(range(alice_out), repeat=alice_in):
+            # Bob's contribution for every question `y` and answer `b`, with Alice's answers fixed by `f`:
+            # \sum_x \pi(x, y) V(f(x), b | x, y).
+            bob_terms = np.zeros([bob_in, bob_out, dim_x, dim_y], dtype=complex)
+            for x_in in range(alice_in):
+                for y_in in range(bob_in):
+                    for b_out in range(bob_out):
+                        bob_terms[y_in, b_out] += (
+                            self.prob_mat[x_in, y_in] * self.pred_mat[:, :, f_ans[x_in], b_out, x_in, y_in]
+                        )
+            for g_ans in product(range(bob_out), repeat=bob_in):
+                p_win = sum(bob_terms[y_in, g_ans[y_in]] for y_in in range(bob_in))
+                # The optimal referee state is an eigenvector for the largest eigenvalue of the operator.
+                unent_val = np.linalg.eigvalsh((p_win + p_win.conj().T) / 2)[-1]
+                max_unent_val = max(max_unent_val, float(unent_val))
         return max_unent_val
 
     def nonsignaling_value(self) -> float:
